@@ -78,10 +78,10 @@ def encHead (m n : Nat) : Bytes :=
 
 /-- float: the shortest of f16 / f32 / f64 that widens back to the same bits. -/
 def encFloat (bits : Nat) : Bytes :=
-  let h := Float.f64to16 bits
+  let h := Float.f64to16 bits % 65536           -- (a u16 / u32: the reductions are no-ops)
   if Float.f16to64 h = bits then 0xf9 :: beN 2 h
   else
-    let w := Float.f64to32 bits
+    let w := Float.f64to32 bits % 4294967296
     if Float.f32to64 w = bits then 0xfa :: beN 4 w
     else 0xfb :: beN 8 bits
 
